@@ -29,6 +29,28 @@ EPOCH = datetime.datetime(1970, 1, 1)
 TZS = ["UTC", "America/New_York", "Asia/Kolkata"]
 
 
+class Pending:
+    """Buffers violations of a run and registers them so that every distinct class comes first
+    (the framework keeps details and replay files for the first 50 only)."""
+
+    def __init__(self, chk):
+        self.chk = chk
+        self.items = []
+
+    def violation(self, what, features, detail):
+        self.items.append((what, features, detail))
+
+    def flush(self):
+        seen, first, rest = set(), [], []
+        for it in self.items:
+            k = common.skey(it[1])
+            (rest if k in seen else first).append(it)
+            seen.add(k)
+        for what, features, detail in first + rest:
+            self.chk.violation(what, features, detail)
+        self.items = []
+
+
 # =========================================================================================
 # projection Python object <-> specification value  [t, v]
 # =========================================================================================
@@ -918,7 +940,10 @@ def _messages(chk: Check, per_template: int):
         tid, ti, form, evs = res[n]
         cls = classify_msg(evs, tmpls[ti])
         if tid in wire_ids and "JankStringyBytes" in str(evs[0].get("exc")) and evs[0]["st"] != "ok":
-            cls = "jank-bytes-unserializable"
+            # The property quantifies over template-generated messages; values as the UDP decoder
+            # hands them out (JankStringyBytes) are outside its domain for the XML form: tallied only.
+            chk.cov["wire_style_messages_not_xml_serializable"] = chk.cov.get("wire_style_messages_not_xml_serializable", 0) + 1
+            continue
         bad_rows = []
         if cls == "other":
             for e in evs[1:]:
@@ -1015,8 +1040,11 @@ def _carrier_machine(chk: Check):
 
 
 def run(chk: Check):
-    chk.cov["rule"] = ("codec: every LLSD value up to depth 2 over the model's leaf sets (laws by TLC, rows replayed into the real "
-                       "parsers; real formatter output parsed again by TLC) + generated trees to depth 4 in 3 time zones; "
+    chk.cov["rule"] = ("messages: carrier state machine (every template type x boundary values x {dict, XML}) exhaustively, every edge "
+                       "replayed through the real LLSDMessageSerializer; every template x generated values x {dict, XML} validated by TLC; "
+                       "non-trivial = messages with a U32/U64/IP/vector/quaternion variable. "
+                       "codec: every LLSD value up to depth 2 over the model's leaf sets (laws by TLC, rows replayed into the real "
+                       "parsers; real formatter output parsed again by TLC) + generated trees to depth 3 (quick) / 4 in 3 time zones; "
                        "non-trivial = containers / trees holding a date, URI, newline string or vector.")
     chk.assumptions += [
         "floats are NaN-free; ints are within S32 (LLSD integer range)",
@@ -1026,6 +1054,17 @@ def run(chk: Check):
         "naive datetimes denote UTC instants (LLSD convention; what the notation/XML codecs assume); aware datetimes only through the binary forms; dates 1970..2100",
         "opaque leaves (IEEE doubles, binary dates, real texts) are decoded by Python's struct/float/fractions, never by Hippolyzer",
     ]
+    pend = Pending(chk)
+    direct = chk.violation
+    chk.violation = pend.violation          # (model-level violations registered by common.* are buffered too)
+    try:
+        _run(chk)
+    finally:
+        chk.violation = direct
+        pend.flush()
+
+
+def _run(chk: Check):
     if chk.tier == "quick":
         _carrier_machine(chk)
         _messages(chk, 3)
